@@ -157,7 +157,7 @@ func c19Error(r *core.Result, vals []banderwagon.Element, bad int, desc string) 
 func init() {
 	core.Register(&core.Check{
 		ID: "C19", Level: "model_checking",
-		Rule:   "lists over 6 element values (identity normalised and as rescaled (0,-1), G rescaled, G flipped, SRS[5] rescaled+flipped, 2G): ALL lists of length <= 3 (4 thorough) with ALL pointer-aliasing patterns (set partitions of the positions), lengths {0,1,15,16,17,31,32,33,255,256,257,300} with duplicate pointers at stride patterns, each x NumCPU {1,2,3,16,17}; an un-normalisable element at EACH position; BatchNormalize additionally under the controlled scheduler: every map-iteration permutation of <= 4 distinct pointers x every schedule of Execute's workers (DPOR, unbounded); oracle: position-wise equality with Bytes/BytesUncompressedTrusted/MapToScalarField/Normalize and the reference encoding, Z = 1 and Equal after BatchNormalize, bit-identical elements after a failed call; a state is a decision point of the explored schedule/permutation tree",
+		Rule:   "lists over 6 element values (identity normalised and as rescaled (0,-1), G rescaled, G flipped, SRS[5] rescaled+flipped, 2G): ALL lists of length <= 3 (4 thorough) with ALL pointer-aliasing patterns (set partitions of the positions), lengths {0,1,15,16,17,31,32,33,255,256,257,300,511,512,513,1000,1025} with duplicate pointers at stride patterns, each x NumCPU {1,2,3,16,17}; an un-normalisable element at EACH position; BatchNormalize additionally under the controlled scheduler: every map-iteration permutation of <= 4 distinct pointers x every schedule of Execute's workers (DPOR, unbounded); oracle: position-wise equality with Bytes/BytesUncompressedTrusted/MapToScalarField/Normalize and the reference encoding (read through the caller's own result variables, pre-filled with garbage), Z = 1 and Equal after BatchNormalize, bit-identical elements after a failed call; a state is a decision point of the explored schedule/permutation tree",
 		Assume: []string{"valid elements except the deliberately un-normalisable one", "scheduling points = visible synchronisation operations; map order owned through the vsched.MapKeys seam"},
 		Units:  c19Units,
 	})
